@@ -717,6 +717,10 @@ def boost_p1(rng, ds):
                 c["p"] = [0.0 if i < j else 1.0 for i in range(n)]
 
 
+# diagrams that evaluate every input against its own observations, input by input
+DIFFERENT_OBS_OK = ("reliability", "discrimination", "roc", "marginal", "igncontrib", "economicvalue", "bsdecomp", "invreliability")
+
+
 def run_shard(desc, ctx):
     rng = random.Random("C16-%s-%s" % (desc["seed"], desc["k"]))
     table = dict(DIAGRAMS)
@@ -729,6 +733,14 @@ def run_shard(desc, ctx):
             ds = make(rng, kind, F=c16_more.FIXED_F.get(name))
             if kind == "prob":
                 boost_p1(rng, ds)
+            if name in DIFFERENT_OBS_OK and len(ds["inputs"]) >= 2 and rng.random() < 0.4:
+                # files from different sources may store different observations for the same case (another sensor, another
+                # quality control): each input's curve is drawn from its own observations
+                for j, inp in enumerate(ds["inputs"][1:]):
+                    for c in inp["cells"].values():
+                        if c.get("obs") is not None and rng.random() < 0.5:
+                            c["obs"] = max(0.0, c["obs"] + rng.choice([-3.0, 3.0, 6.0]))
+                ctx.count("datasets_with_different_observations_per_input")
             d = os.path.join(ctx.workdir, "%s-%d" % (name, ci))
             os.makedirs(d, exist_ok=True)
             paths, _ = gen.materialize(ds, d, None)
